@@ -67,3 +67,63 @@ Proof.
   destruct (o_idna_dec O (h0 :: hr)); try exact I. reflexivity.
 Qed.
 End Total.
+
+(* ---- strict form: when every codec answers (ok / error), nothing is left outside the model ----- *)
+Definition oracle_answers (O : oracles) : Prop :=
+  oracle_total O /\
+  (forall h, (exists r, o_idna_dec O h = MOk r) \/ (exists e, o_idna_dec O h = MRaise e)).
+
+Definition url_or_parse_error {A} (r : mres A) : Prop :=
+  match r with
+  | MOk _ => True
+  | MRaise e => e = URLParseError
+  | MOut _ => False
+  end.
+
+Section Strict.
+Variable T : tables.
+Variable O : oracles.
+Hypothesis OA : oracle_answers O.
+
+Lemma mbind_strict {A B} (x : mres A) (f : A -> mres B) :
+  url_or_parse_error x -> (forall a, url_or_parse_error (f a)) -> url_or_parse_error (mbind x f).
+Proof. destruct x; cbn; auto. Qed.
+
+Lemma parse_host_strict h : url_or_parse_error (parse_host O h).
+Proof.
+  unfold parse_host. destruct h as [|h0 r]; [exact I|].
+  destruct OA as [[O4 [O6 _]] _].
+  destruct (memN 58 (h0 :: r) && (h0 =? 91) && last_is 93 (h0 :: r)).
+  - destruct (O6 (removelast (tl (h0 :: r)))) as [x Hx]. rewrite Hx. cbn [mbind].
+    destruct x; try exact I; try reflexivity.
+    destruct (O4 (removelast (tl (h0 :: r)))) as [b Hb]. rewrite Hb. exact I.
+  - destruct (O4 (h0 :: r)) as [b Hb]. rewrite Hb. exact I.
+Qed.
+
+Lemma split_hostport_strict hi : url_or_parse_error (split_hostport O hi).
+Proof.
+  unfold split_hostport. destruct hi as [|c hi]; [exact I|].
+  destruct (partition 58 (c :: hi)) as [[host sep] port_str].
+  destruct sep; [|exact I].
+  destruct (if (match host with h0 :: _ => h0 =? 91 | [] => false end) && memN 93 port_str then _ else _)
+    as [host' port_str'].
+  destruct (all_ascii port_str').
+  - destruct (py_int port_str'); [exact I|]. destruct port_str'; [exact I|reflexivity].
+  - destruct OA as [[_ [_ OI]] _]. destruct (OI port_str') as [r Hr]. rewrite Hr. cbn [mbind].
+    destruct r; [exact I|reflexivity].
+Qed.
+
+Theorem url_init_total_strict s : url_or_parse_error (url_init T O s).
+Proof.
+  unfold url_init. destruct s as [|c s']; [exact I|].
+  apply mbind_strict.
+  - unfold parse_url. destruct (split_userinfo _) as [[user pw] hostinfo].
+    apply mbind_strict; [apply split_hostport_strict|].
+    intros [host port]. apply mbind_strict; [apply parse_host_strict|].
+    intros [family host']. exact I.
+  - intro p. apply mbind_strict; [|intro; exact I].
+    unfold decode_host. destruct (pu_host p) as [|h0 hr]; [exact I|].
+    destruct (all_ascii (h0 :: hr)); [|exact I].
+    destruct OA as [_ OD]. destruct (OD (h0 :: hr)) as [[r Hr]|[e He]]; [rewrite Hr; exact I|rewrite He; reflexivity].
+Qed.
+End Strict.
